@@ -17,7 +17,7 @@ CHECKS = {
              "the property's clauses are evaluated on the real answers, across PYTHONHASHSEEDs and with reversed declaration order. Unbounded parts "
              "(all n of String(n), all Decimal(p,s), vararg arity > 3) are represented by instances: partial, stated in the evidence.",
         design_ref="DESIGN.md section 5, C13",
-        note=NOTE_COMMON + "Defects D7, D24, D25 found by this check were repaired in /repo (fix: commits, listed under "fixed" in known_findings.json); the theorems are stated without guards and carry regression witnesses.",
+        note=NOTE_COMMON + "Defects D7, D24, D25 found by this check were repaired in /repo (fix: commits, listed under fixed in known_findings.json); the theorems are stated without guards and carry regression witnesses.",
     ),
 }
 
